@@ -22,7 +22,7 @@ def run(ctx):
     th = ctx.thorough
     r = ctx.tlc("purity", "mc/MC_Purity.tla", "mc/MC_Purity.cfg", {"N": 4 if th else 3}, min_states=27000, timeout=3400, heap="14g")
     ctx.replay("purity-replay", "purity", r["dump"], min_cases=27000)
-    tr = ctx.record("purity-random", "purity", ["-n", 200000 if th else 20000])
+    tr = ctx.record("purity-random", "purity", ["-n", 100000 if th else 12000])
     ctx.validate("purity-random-validate", "trace/Trace_Purity.tla", "trace/Trace_Purity.cfg", tr, "purity")
     # the corrupted event must be judged against the whole history before it: no windowing
     lines = [l for l in open(tr, encoding="utf-8").read().split("\n") if l]
